@@ -215,6 +215,51 @@ CLAIMED.update({
         technique="explicit TLA+ protocol model + TLC; gated schedule replay with mock external store; TLC trace validation"),
 })
 
+CLAIMED.update({
+    "C27": dict(category="model_checking",
+        text="TLC model-checks RepDef.tla: a transcription of SerializerContext / RepDefUnraveler / CompositeRepDefUnraveler is shown to "
+             "produce exactly the documented Dremel-style levels (LevelsMatchScheme), to be inverted by unravelling on the logical value "
+             "(RoundTrip: Tree(Unravel(Build x)) = Tree x, also for two batches serialised together and two pages read together) and to map "
+             "rows to level and item ranges (RowTranslation), for all nestings of lists / structs (and list-free fixed-size lists) up to "
+             "depth 3 with validity at every level, empty and null lists and garbage behind nulls. Every filled column TLC reaches is "
+             "printed as a scenario; the real RepDefBuilder..serialize, control words, RepDefSlicer and RepDefUnraveler are run on each, "
+             "the column is also written as a Lance 2.1 file and read back by every row range and row subset, and every recorded result "
+             "is judged by TLC (Trace_RepDef.tla) against the declarative scheme and the logical tree.",
+        design_ref="DESIGN.md 3.9, 5 (C27)",
+        note="exhaustive for the stated small bounds (total slots of all layers <= 5-6, rows <= 4-6, list length <= 2; pairs of batches "
+             "<= 9 slots without validity buffers), larger pairs by TLC simulation; leaf values abstracted to slot numbers; list + structural "
+             "FSL and zero-row pages excluded; trusted: TLC, arrow-rs",
+        technique="TLA+ operator semantics + TLC model check of the operational model; spec-generated scenarios replayed on the "
+                  "implementation (API and file level); TLC trace validation"),
+    "C37": dict(category="model_checking",
+        text="TLC checks FeatureFlags.tla (table facts evolving by append/delete/update/compact/config/clone/overwrite, future writers "
+             "setting unknown bits, our writers/readers gated) for FlagsReflectContents, NeverWriteUnknown, WritersRefuseUnknown, "
+             "ReadersRefuseUnknown, GateIsExact on all 2^8 flag words and VersionLaws (name<->number<->alias table from the docs). The real "
+             "can_read/can_write_dataset are called on every word under 4 embeddings of the unknown bits, apply_feature_flags on every small "
+             "manifest, every LanceFileVersion conversion on a spec-given string set; one TLC-generated history per reachable model state is "
+             "replayed on real tables and every step's manifest is judged (flags = flags implied by contents, all data files carry the table's "
+             "storage version); a manifest with unknown reader/writer bits is written with the public manifest writer and every read/write "
+             "operation is attempted through fresh and stale handles; every recorded event is judged by TLC (Trace_FeatureFlags.tla).",
+        design_ref="DESIGN.md 3.9, 5 (C37), 8 #9",
+        note="trusted: TLC, local file-system store, the manifest projection of the driver; known bits are the implementation's (0..5); "
+             "undocumented version names judged by consistency with the number table only",
+        technique="TLA+ state machine + operator semantics model-checked by TLC; exhaustive operator replay, TLC-generated history replay "
+                  "and gate probing on real tables, validated by TLC trace checking"),
+    "C43": dict(category="model_checking",
+        text="TLC checks SchemaAlgebra.tla (every field tree with <=4 fields is built node by node, then transformed by exclude/intersect/"
+             "merge/project-by-ids/project-by-path; the per-field name-matched procedure of the code is compared with the plain set operation "
+             "on field ids) for ImplIsSetOp, ClosedUnderAncestors, PathFindsField, QuoteRoundTrip and the set identities. TLC prints every "
+             "well-formed tree; for each tree the real Schema::{resolve, field_path, project, project_by_ids, intersection, exclude, merge}, "
+             "Projection::{union_*, subtract_*, intersect, to_bare_schema}, the Arrow and the stored-form round trips are called on the "
+             "complete operand universe and parse/format_field_path on every short string; TLC judges every recorded result field by field "
+             "(id, parent, name, type, nullability, metadata-carried identity) against the set semantics (Trace_SchemaAlgebra.tla).",
+        design_ref="DESIGN.md 3.9, 5 (C43)",
+        note="trusted: TLC, Arrow schema types; operands are sub-schemas of one tree; a selected nested field without selected descendants "
+             "may make Projection::to_schema decline; Arrow round trip judged without id equality; sibling order not judged",
+        technique="TLA+ operator semantics + design-level state machine model-checked by TLC; exhaustive implementation replay over the "
+                  "TLC-generated tree universe, validated by TLC trace checking"),
+})
+
 PENDING_REASON = "not yet bound to the implementation by a registered check in this snapshot (see DESIGN.md status table)"
 
 ALL = ["C%02d" % i for i in range(1, 44)]
